@@ -110,6 +110,8 @@ def build_asset(a, built, tz=None):
             for kk, vv in v.items():
                 if kk in ('start', 'end'):
                     o[kk] = [pd.Timestamp(x, tz=tz) for x in vv]
+                    if tz is not None and a.get('_orders_tz'):
+                        o[kk] = [x.tz_convert(a['_orders_tz']) for x in o[kk]]        # the same instants quoted in another zone
                 else:
                     o[kk] = list(vv)
             if a.get('_orders_as_df'):
